@@ -350,7 +350,12 @@ pub fn run(ctx: &Ctx) -> Report {
          oracle = an independent decoder instance accepts the output as ONE complete stream with nothing left over and dec(out) == the same filters applied to the plain body in one chunk; unsupported encoding => no chain is created and out == in; \
          non-trivial = the filters changed the document and a cut falls inside the first 10 or the last 8 bytes of the compressed stream; distinct by case hash",
     );
-    rep.assume("flate2 and brotli (independent decoder instances) judge stream validity (trusted); while known finding D7 is listed for this property, comments / CDATA / raw-text elements are generated without markup inside (the decoder re-chunks the plain text at boundaries the harness cannot steer, so the D7 zones cannot be avoided by choosing cuts)");
+    rep.assume("flate2 and brotli (independent decoder instances) judge stream validity (trusted)");
+    if crate::known::is_listed("C14", D7) {
+        rep.assume("while known finding D7 is listed for this property, comments / CDATA / raw-text elements are generated without markup inside (the decoder re-chunks the plain text at boundaries the harness cannot steer, so the D7 zones cannot be avoided by choosing cuts)");
+    } else {
+        rep.assume("since D7 was repaired (fix eadbe5a) comments, CDATA sections and raw-text elements are generated with markup inside: the decoder re-chunks the plain text at boundaries of its own, which fall inside them");
+    }
     rep.add(run_part(ctx, "streams", ctx.cases(10_000, 300_000), strategy, check, &[]));
     rep
 }
